@@ -186,6 +186,7 @@ M("C01", "c01_generate_commits_every_atr", ["saito_core::core::consensus::block:
 M("C01", "c01_unwind_full_before_revert", ["Blockchain::unwind_chain (async body)", "Blockchain::wind_chain"], "same as c03_unwind_full_before_revert: event order on every path, |new| 1..=2, |old| 0..=1", covers=2)
 M("C02", "c02_generate_commits_every_atr", ["saito_core::core::consensus::block::Block::generate (second sweep)"], "same as c13_generate_commits_every_atr: the ATR type, exempt from the no-mint comparison, cannot bypass the commitment", covers=2)
 M("C13", "c13_pruned_block_selection", ["Block::generate_consensus_values (async body, up to the point where the block leaving the window is loaded)"], "block id and genesis period symbolic; parent block not indexed (its arithmetic is independent and skipped)", covers=1)
+M("C13", "c13_nft_group_not_split", ["Block::generate_consensus_values (async body, rebroadcast section: collection pass and regrouping pass)"], "block loaded from disk a symbolic input: one transaction with outputs [Bound, payload of any non-Bound type, Bound], all unspent; amounts within the supply; parent not indexed (multiplier 1)", covers=1)
 M("C13", "c13_atr_inputs_recorded", [CLO], "ATR-typed transactions with 1..=2 inputs, one arbitrary key already recorded for the block")
 
 # ============================================================================== C04 (and the composition half of C03)
@@ -251,6 +252,7 @@ M("C18", "c18_lite_header_copy", ["Block::generate_lite_block", "Block::generate
 M("C18", "c18_lite_tx_projection", ["saito_core::core::consensus::block::Block::generate_lite_block::{closure#0} and its two nested closures"],
   "transactions with 0..=2 inputs x 0..=2 outputs (thorough 0..=3), every type, owners symbolic 33-byte keys; key lists of 0..=2 (3) symbolic keys in any order", covers=20)
 
+M("C18", "c18_lite_block_keeps_listed", ["Block::generate_lite_block (whole function: projection closure, placeholder merging loop, header copy)"], "blocks of 2..=3 transactions (thorough 4), one input and one output each, owner keys / types / signatures symbolic, one listed key", covers=2)
 # ============================================================================== C14
 PROPERTY_ASSUMPTIONS["C14"] = [
     "inductive steps from a pool satisfying Inv (utxo_map holds exactly the inputs of the pooled transactions; pooled transaction = 1 with 1..=2 inputs), routing work and fees within the token supply; async bodies with every poll Ready",
@@ -260,6 +262,7 @@ PROPERTY_ASSUMPTIONS["C14"] = [
 M("C14", "c14_add_transaction_step", ["Mempool::add_transaction (async body)"], "pooled transaction with 1..=2 inputs x new transaction with 1..=2 inputs, every 59-byte key / amount / 64-byte signature / non-GT type symbolic", covers=4)
 M("C14", "c14_reorg_revalidates_pool", ["Blockchain::remove_block_transactions", "its retain closure"], "all paths of both bodies, callees uninterpreted")
 M("C14", "c14_delete_recomputes_work", ["Mempool::delete_transactions", "Blockchain::remove_block_transactions"], "pool of two transactions with symbolic work and signatures, stale counter arbitrary, confirmed transaction arbitrary; call order on every path of remove_block_transactions", covers=2)
+M("C14", "c14_bundle_releases_reservations", ["Mempool::bundle_block (async body)"], "the created block a symbolic input: two transactions of symbolic type with one reserved input each; staking transaction / can_bundle / generate answers favourable", covers=1)
 M("C14", "c14_delete_releases_reservations", ["Mempool::delete_transactions"], "pool holding one transaction with one input; the block confirms that transaction")
 
 # ============================================================================== C02
